@@ -4,8 +4,7 @@
 
    The model (Impl/RowFilter.v) is the REPAIRED code (fix: commits listed in notes/C13.md): flat list =
    AND, partition conditions evaluated, missing cells satisfy only != / not in, and the page loop of
-   core.read_col with a row mask over v1 data pages.  v2 data pages with a row mask stay outside
-   (open finding).
+   core.read_col with a row mask over v1 and v2 data pages.
 
    Full statement: for every dataset (any row groups, any split of every chunk into pages, NULLs
    anywhere) and every program, to_pandas(filters, row_filter=True) returns, in the original order,
@@ -21,10 +20,10 @@ From Pq Require Import Base.PyVal Impl.Filter Impl.FilterLeaf Impl.RowFilter
 Import ListNotations.
 Open Scope string_scope.
 
-(* every split of a column chunk into v1 pages (with or without definition levels), every mask: the
+(* every split of a column chunk into data pages (v1 with or without definition levels, v2), every mask: the
    loop of read_col fills the pre-allocated output with exactly the masked column - no slot left
    uninitialised, none written twice, no shape error *)
-Theorem C13_mask_pages : forall (V : Type) (pages : list (bool * page V)) (row_filter : list bool),
+Theorem C13_mask_pages : forall (V : Type) (pages : list (pkind * page V)) (row_filter : list bool),
   Forall (wf_page V) pages -> List.length row_filter = List.length (cells V pages) ->
   read_col_masked V row_filter pages = Some (map W (select row_filter (cells V pages))).
 Proof. exact read_col_masked_spec. Qed.
@@ -68,7 +67,7 @@ Print Assumptions C13_custom_mask.
 (* the page loop of the pinned tree (repaired by a fix: commit): an unselected first page leaves the
    output uninitialised; a NULL before a page boundary shifts the mask *)
 Theorem C13_mask_pages_pinned_refuted :
-  exists (pages : list (bool * page Z)) (rf : list bool),
+  exists (pages : list (pkind * page Z)) (rf : list bool),
     Forall (wf_page Z) pages /\ List.length rf = List.length (cells Z pages) /\
     read_col_masked_pinned Z rf pages = Some [Uninit; Uninit] /\
     select rf (cells Z pages) = [Some 3%Z; Some 4%Z].
@@ -76,18 +75,18 @@ Proof. exact read_col_masked_pinned_refuted. Qed.
 Print Assumptions C13_mask_pages_pinned_refuted.
 
 Theorem C13_mask_nulls_pinned_refuted :
-  exists (pages : list (bool * page Z)) (rf : list bool),
+  exists (pages : list (pkind * page Z)) (rf : list bool),
     Forall (wf_page Z) pages /\ List.length rf = List.length (cells Z pages) /\
     read_col_masked_pinned Z rf pages = Some [W None; W (Some 1%Z); W (Some 2%Z)] /\
     select rf (cells Z pages) = [None; Some 1%Z; Some 3%Z].
 Proof. exact read_col_masked_pinned_nulls_refuted. Qed.
 Print Assumptions C13_mask_nulls_pinned_refuted.
 
-(* non-vacuity: three pages (one without definition levels, one nothing selected, NULLs), and a
+(* non-vacuity: three pages (v1 without definition levels, v1 with nothing selected, v2 with NULLs), and a
    two-pass read over two row groups with a flat (AND) program on a data and a NULL-holding column *)
 Example C13_nonvacuous :
   read_col_masked Z [true; false; false; false; true; true; false; true]
-    [(true, [Some 1; Some 2]); (false, [None; Some 4]); (false, [None; Some 6; Some 7; None])]%Z
+    [(V1nodefi, [Some 1; Some 2]); (V1defi, [None; Some 4]); (V2, [None; Some 6; Some 7; None])]%Z
   = Some [W (Some 1); W None; W (Some 6); W None]%Z
   /\ two_pass_ids filter_val [] ["x"; "y"]
        [ {| rg_num_rows := 3; rg_columns := [{| c_name := "x"; c_num_values := 3;
